@@ -49,6 +49,8 @@ def strat(tier):
         'relative': st.booleans(),
         'part_file': st.sampled_from([None, None, 'custom.tmp']),
         'api': st.sampled_from(['with', 'with', 'explicit']),
+        # a part file left by an earlier, crashed attempt (longer / shorter than the new content); taken over with overwrite_part=True
+        'stale_part': st.sampled_from([None, None, None, 'longer', 'shorter']),
     })
 
 
@@ -76,7 +78,14 @@ def _config(case):
     return text, chunks, new, old, overwrite, buffering
 
 
-def _prepare(sandbox, old):
+def _stale(case, new):
+    sp = case.get('stale_part')
+    if not sp:
+        return None
+    return b'STALE-' * (len(new) // 6 + 50) if sp == 'longer' else b'S'
+
+
+def _prepare(sandbox, old, stale=None, part_name='dest.bin.part'):
     for name in os.listdir(sandbox):
         p = os.path.join(sandbox, name)
         if os.path.isdir(p):
@@ -88,6 +97,11 @@ def _prepare(sandbox, old):
             f.write(old)
             f.flush()
             os.fsync(f.fileno())
+    if stale is not None:
+        with open(os.path.join(sandbox, part_name), 'wb') as f:
+            f.write(stale)
+            f.flush()
+            os.fsync(f.fileno())
 
 
 def _body(case, chunks, overwrite, buffering, sandbox):
@@ -97,6 +111,8 @@ def _body(case, chunks, overwrite, buffering, sandbox):
         kw = {'text_mode': bool(case['text_mode']), 'overwrite': overwrite, 'buffering': buffering}
         if case['part_file']:
             kw['part_file'] = case['part_file']
+        if case.get('stale_part'):
+            kw['overwrite_part'] = True
         if case['api'] == 'with':
             with fileutils.atomic_save(dest, **kw) as f:
                 for c in chunks:
@@ -137,7 +153,9 @@ def run(case):
             text, overwrite, buffering, case['part_file'], 'relative' if case['relative'] else 'absolute', case['api'],
             [len(c) for c in chunks], _short(old))
         # ---- recording run ---------------------------------------------
-        _prepare(sandbox, old)
+        stale = _stale(case, new)
+        part_name = case['part_file'] or 'dest.bin.part'
+        _prepare(sandbox, old, stale, part_name)
         code, res = fsio.run_in_child(sandbox, body)
         if res is None or code != 0:
             raise HarnessError('recording child failed: exit %r, result %r' % (code, res))
@@ -187,7 +205,7 @@ def run(case):
         n_nontrivial = 0
         for idx in range(len(events)):
             for when in ('before', 'after'):
-                _prepare(sandbox, old)
+                _prepare(sandbox, old, stale, part_name)
                 code, r2 = fsio.run_in_child(sandbox, body, crash_at=(idx, when))
                 n_points += 1
                 if code != 137:
@@ -208,6 +226,8 @@ def run(case):
         out.label('crash_points:%d' % (8 * (n_points // 8)))
         if old is not None:
             out.label('destination_present')
+        if stale is not None:
+            out.label('stale_part_file_taken_over')
         if text:
             out.label('text_mode')
         if any(len(c) >= 8192 for c in chunks):
